@@ -28,6 +28,7 @@ func run(c *mon.Ctx) {
 	c.Floor("rejected.table_id", 100)
 	c.Floor("rejected.identifier", 100)
 	c.Floor("decode_again_after_edit", 2000)
+	c.Floor("same_buffer_refilled_with_another_section", 2000)
 	c.Floor("decode_after_descriptor_cut_short", 500)
 	c.Floor("sections.command_length_not_given", 5000)
 	c.Floor("sections.pointer_field_over_other_bytes", 2000)
@@ -152,6 +153,31 @@ func run(c *mon.Ctx) {
 			s35.CheckDecoded(c, "decode:object-after-later-decodes", &s, x, snap)
 			if !bytes.Equal(x.Data(), sec) {
 				c.Fail("decode:data-after-later-decodes", "Data() of a decoded signal changed after other sections were decoded / encoded", wit{mon.Hex(snap), s35.Shape(&s), mon.Hex(x.Data())})
+			}
+		}
+		// ... and of nothing but the bytes: the caller's buffer is refilled with another section of the same length
+		// (same shape, other tier / adjustment / event ids / times) and decoded from the same memory
+		if i%4 == 2 {
+			s2 := s
+			s2.Descs = append([]ref.SegDesc{}, s.Descs...)
+			s2.Tier, s2.PTSAdj, s2.CW = s.Tier^0x5a5, (s.PTSAdj+12345)&(1<<33-1), s.CW^0xff
+			s2.TSPTS, s2.InsPTS, s2.Event = (s.TSPTS+777)&(1<<33-1), (s.InsPTS+999)&(1<<33-1), s.Event^0xffff
+			for k := range s2.Descs {
+				if !s2.Descs[k].Foreign {
+					s2.Descs[k].Event ^= 0x0f0f0f0f
+					s2.Descs[k].Num++
+				}
+			}
+			if p2 := s2.Payload(); len(p2) == len(in) {
+				copy(in, p2)
+				snap2 := append([]byte{}, in...)
+				c.Count("same_buffer_refilled_with_another_section")
+				if y, err := scte35.NewSCTE35(in); err != nil || y == nil {
+					c.Fail("decode-refilled-buffer:error", fmt.Sprintf("a section was rejected when decoded from a buffer that held another section of the same length before: %v", err), wit{Input: mon.Hex(snap2), Shape: s35.Shape(&s2)})
+				} else {
+					s35.CheckDecoded(c, "decode-from-a-buffer-refilled-with-another-section-of-the-same-length", &s2, y, snap2)
+				}
+				copy(in, snap)
 			}
 		}
 		// decoding is a function of the bytes: edit the decoded object in place, decode the same bytes again
@@ -292,6 +318,7 @@ func run(c *mon.Ctx) {
 	})
 	// section_length is a 12-bit field: sections of 1024..4093 bytes decode like small ones
 	c.Floor("large.sections", 100)
+	c.Floor("large.many_small_descriptors", 50)
 	c.Stream("large-sections", c.N(600, 60000), func(i int, r *gen.Rand) {
 		s := ref.GenSig(r, true)
 		if s.Cmd == 5 && !s.Prog && r.Bool() {
@@ -300,8 +327,20 @@ func run(c *mon.Ctx) {
 			}
 		}
 		want := r.PickInt([]int{1024, 1025, 1100, 1279, 1280, 2047, 2048, 2049, 3000, 3071, 3072, 4000, 4090, 4093, 1024 + r.Intn(3070)})
+		many := i%5 == 3 // hundreds of minimal descriptors (cancelled events, short foreign ones): the loop has no entry limit
+		if many {
+			s.Descs = nil
+			c.Count("large.many_small_descriptors")
+		}
 		for len(s.Section())-3 < want {
 			d := ref.GenSegDesc(r, true)
+			if many {
+				if r.Bool() {
+					d = ref.SegDesc{Cancel: true, Event: r.Uint32()}
+				} else {
+					d = ref.SegDesc{Foreign: true, Tag: r.PickByte([]byte{0x00, 0x01, 0x80, 0xfe}), Body: append([]byte("ABCD"), r.Bytes(r.Intn(2))...)}
+				}
+			}
 			if !d.Foreign && !d.Cancel && d.UPIDType != 0x0d && d.UPIDType != 0 && r.Bool() {
 				keep := d.UPID
 				if d.UPID = r.Bytes(100 + r.Intn(130)); len(d.Enc())-2 > 255 {
